@@ -5,9 +5,9 @@
    Directives: ExtractCommon.v (Basic, NatInt, ZBigInt, Z.ggcd -> zarith gcd). *)
 From Amgcl Require Import ExtractCommon.
 From Coq Require Import QArith Qcanon.
-From Amgcl Require Import Scalar QcInst Vec Crs Kernels MatOps Relax DenseSolve Amg AmgExec Ilu Cheby Krylov ReuseProofs2 ReuseProofs3.
+From Amgcl Require Import Scalar QcInst Vec Crs Kernels MatOps Relax DenseSolve Amg AmgExec Ilu Cheby Krylov ReuseProofs2 ReuseProofs3 ReuseProofs4.
 Separate Extraction
   QcInst.QcS Scalar.is_zero Scalar.smax Scalar.smin
   Vec Crs Kernels MatOps Relax DenseSolve Amg AmgExec Ilu Cheby Krylov
   ReuseProofs2.cg_sp ReuseProofs2.richardson_sp ReuseProofs2.bicgstab_sp ReuseProofs2.amg_sp
-  ReuseProofs3.gmres_sp ReuseProofs3.fgmres_sp.
+  ReuseProofs3.gmres_sp ReuseProofs3.fgmres_sp ReuseProofs4.cheby_sp.
